@@ -26,6 +26,9 @@ type PubSession struct {
 	baseInSession *BaseInSession
 
 	observer IPubSessionObserver
+
+	// DisposeByObserverFlag 上层在 OnNewRtspPubSession 回调中拒绝了这个session，此时不再触发 OnDelRtspPubSession
+	DisposeByObserverFlag bool
 }
 
 func NewPubSession(urlCtx base.UrlContext, cmdSession *ServerCommandSession) *PubSession {
